@@ -102,7 +102,7 @@ func laplacianConcurrent(nWorkers, evals int, f func(x []float64) float64, x []f
 
 	var originWG sync.WaitGroup
 	hasOrigin := usesOrigin(stencil)
-	if hasOrigin {
+	if hasOrigin && !originKnown {
 		originWG.Add(1)
 		// Launch worker to compute the origin.
 		go func() {
